@@ -1,9 +1,11 @@
 """C10 — allows_all(A, B) true guarantees containment (DESIGN §5 C10)."""
+from .. import invariant
 from .common import interval_table, range_level1, set_table
 
 
 def check(ctx, rep):
     prog = ctx.prog()
+    invariant.check_invariant(ctx, rep, prog)
     rows_all = interval_table(ctx, rep, prog, "allows_all", "T-ALL", 1004,
                               "BoundSet::allows_all(a,b) = a.lower cut <= b.lower cut and b.upper cut <= a.upper cut")
     rows_dif = interval_table(ctx, rep, prog, "difference", "T-DIF", 1004,
